@@ -1348,21 +1348,21 @@ iter_prop!(
     C08,
     "C08",
     &[IterKind::Rows, IterKind::RowsMut],
-    "rows() / rows_mut() on {owned, view, mutable view, nested views, view over a plain slice, third-party wrapper} (shapes 0..8, parents up to 14 wide so that stride > width, width 1, height 1 and empty all occur) driven by a script of next / next_back / nth(n) / nth_back(n) / len / size_hint / num_cols plus a terminal count / last / fold / rfold / rev-collect / for-loop; n symbolic: 0, k < L, L-1, L, L+1, usize::MAX, usize::MAX/2+1, ceil(2^64/stride)*j+d. Oracle: ideal VecDeque stepped in lock-step, every item compared by address, length and value, len/size_hint after every step; rows_mut items are all kept alive, checked pairwise disjoint, written through and the whole parent compared. Non-trivial = script with state-changing steps from both ends, or an nth/nth_back with n >= 1. Distinct = distinct case.",
+    "rows() / rows_mut() on {owned, view, mutable view, nested views, view over a plain slice, third-party wrapper} (shapes 0..8, parents up to 14 wide so that stride > width, width 1, height 1 and empty all occur) driven by a script of next / next_back / nth(n) / nth_back(n) / len / size_hint / num_cols plus a terminal count / last / fold / rfold / rev-collect / for-loop; n symbolic: 0, k < L, L-1, L, L+1, usize::MAX, usize::MAX/2+1, ceil(2^64/stride)*j+d. Oracle: ideal VecDeque stepped in lock-step, every item compared by address, length and value, len/size_hint after every step; rows_mut items are all kept alive, checked pairwise disjoint, written through and the whole parent compared. Non-trivial = script with state-changing steps from both ends, or an nth/nth_back with n >= 1. Distinct = distinct case. Also: the same kinds of script on giant grids of () (~usize::MAX cells; Some/None, row lengths and length reports only).",
     &["giant-unit-grid", "Rows", "RowsMut", "stride>width", "width-1", "height-1", "empty", "nth-overflow-provoking-n", "stride>=8"]
 );
 iter_prop!(
     C09,
     "C09",
     &[IterKind::Col, IterKind::ColMut],
-    "col(c) / col_mut(c) for every column of {owned, view, mutable view, nested views, slice view, third-party wrapper} incl. single-column parents (stride 1) and parents up to 14 wide, driven by a script of next / next_back / nth / nth_back / len / size_hint / [i] / [i] = v on the remaining sequence plus a terminal; n and i symbolic incl. usize::MAX and ceil(2^64/stride)*j+d (wrap-provoking). Oracle: ideal VecDeque in lock-step (address + value), col[i] beyond the remaining length and col(c) with c out of range must panic; col_mut items kept alive, pairwise disjoint, written through, whole parent compared. Non-trivial = state-changing steps from both ends, or a jump with n >= 1, or an out-of-range column. Distinct = distinct case.",
+    "col(c) / col_mut(c) for every column of {owned, view, mutable view, nested views, slice view, third-party wrapper} incl. single-column parents (stride 1) and parents up to 14 wide, driven by a script of next / next_back / nth / nth_back / len / size_hint / [i] / [i] = v on the remaining sequence plus a terminal; n and i symbolic incl. usize::MAX and ceil(2^64/stride)*j+d (wrap-provoking). Oracle: ideal VecDeque in lock-step (address + value), col[i] beyond the remaining length and col(c) with c out of range must panic; col_mut items kept alive, pairwise disjoint, written through, whole parent compared. Non-trivial = state-changing steps from both ends, or a jump with n >= 1, or an out-of-range column. Distinct = distinct case. Also: the same kinds of script (incl. col[i]) on giant grids of ().",
     &["giant-unit-grid", "Col", "ColMut", "stride>width", "single-column-parent(stride 1)", "index-in-range", "index-out-of-range-panics", "col-out-of-range-panics", "nth-overflow-provoking-n", "stride>=8"]
 );
 iter_prop!(
     C10,
     "C10",
     &[IterKind::Cells, IterKind::CellsMut, IterKind::IntoIterRef, IterKind::IntoIterMut],
-    "cells() / cells_mut() / the IntoIterator forms on references, on {owned, view, mutable view, nested views, slice view, third-party wrapper}: structured scripts = a prefix of 0..w+1 next and 0..w+1 next_back steps (so partially consumed front and back rows are common), a body of small jumps (within the partial row, to its end, row-crossing, exact row multiples), at most one exhausting jump near the end, plus a terminal last / fold / rfold / rev-collect / for-loop. Oracle: ideal row-major VecDeque in lock-step (address + value), len/size_hint/num_cols; cells_mut items kept alive, pairwise disjoint, written through, whole parent compared. Non-trivial = state-changing steps from both ends, or a jump with n >= 1. The evidence classes report, per nth/nth_back call, the 8 combinations of {front row partial, middle rows left, back row partial} and the jump kind. Distinct = distinct case.",
+    "cells() / cells_mut() / the IntoIterator forms on references, on {owned, view, mutable view, nested views, slice view, third-party wrapper}: structured scripts = a prefix of 0..w+1 next and 0..w+1 next_back steps (so partially consumed front and back rows are common), a body of small jumps (within the partial row, to its end, row-crossing, exact row multiples), at most one exhausting jump near the end, plus a terminal last / fold / rfold / rev-collect / for-loop. Oracle: ideal row-major VecDeque in lock-step (address + value), len/size_hint/num_cols; cells_mut items kept alive, pairwise disjoint, written through, whole parent compared. Non-trivial = state-changing steps from both ends, or a jump with n >= 1. The evidence classes report, per nth/nth_back call, the 8 combinations of {front row partial, middle rows left, back row partial} and the jump kind. Distinct = distinct case. Also: len / nth / nth_back / last scripts on giant grids of ().",
     &["giant-unit-grid", "Cells", "CellsMut", "IntoIterRef", "IntoIterMut", "stride>width", "jump-within-row", "jump-to-row-start", "jump-row-crossing", "jump-beyond-end",
       "nth-state front-partial=1 middle-rows=1 back-partial=1", "nth-state front-partial=1 middle-rows=0 back-partial=1", "nth-state front-partial=1 middle-rows=1 back-partial=0", "nth-state front-partial=0 middle-rows=1 back-partial=1"]
 );
